@@ -270,6 +270,11 @@ impl Check for ListLaws {
             want(&sess, "index:last", cls, "l[-1]", &l[len - 1])?;
         }
         want(&sess, "index:beyond", cls, "l[len(l)]", &MV::Null)?;
+        want(&sess, "index:minus-len", cls, "l[0 - len(l)]", &if len > 0 { l[0].clone() } else { MV::Null })?;
+        want(&sess, "index:below-minus-len", cls, "l[0 - len(l) - 1]", &MV::Null)?;
+        if len > 1 {
+            want(&sess, "index:second-last", cls, "l[-2]", &l[len - 2])?;
+        }
         // range
         let (ra, rb) = (c.i as i64, c.i as i64 + c.n as i64);
         sess.bind("ra", &num(ra as f64));
@@ -405,6 +410,8 @@ fn elem_pool() -> Vec<MV> {
     vec![
         num(0.0), num(-0.0), num(1.0), num(2.0), num(2.0), num(3.0), num(-1.0), num(0.5), num(10.0), num(1e15), num(f64::INFINITY), num(f64::NEG_INFINITY),
         s(""), s("a"), s("b"), s("ab"), s("é"), MV::Bool(true), MV::Bool(false), MV::Null,
+        // strings spelling other values (a de-duplication keyed on text would merge them)
+        s("true"), s("false"), s("null"), s("1"), s("0"), s("-0"), s("[]"), s("[1, 2]"), s("{}"),
         MV::List(vec![]), MV::List(vec![num(0.0)]), MV::List(vec![num(-0.0)]), MV::List(vec![num(1.0), num(2.0)]), MV::List(vec![num(1.0)]),
         MV::Rec(vec![("a".into(), num(1.0))]), MV::Rec(vec![]),
     ]
